@@ -54,7 +54,7 @@ def fam_history(seed, n, all_statuses=True):
             elif o == "delay":
                 sc["ops"].append(["delay", rng.choice([1, 1000, MS, 4 * MS, 100 * MS, S])])
             elif o == "send_signal":
-                sig = rng.choice([0, 1, 2, 10, 12, 15, 9, 64])
+                sig = rng.choice([0, 1, 2, 10, 12, 15, 9, 64, 65, 128, 256, 265, 271, -241, -1, 2 ** 31 - 1])
                 sc["ops"].append(["send_signal", sig])
                 if sig in (1, 2, 10, 12, 9, 64) or (sig == 15 and not sc.get("ignores_term")):
                     will_die = True
@@ -71,6 +71,10 @@ def fam_history(seed, n, all_statuses=True):
             sc["ops"] += [["wait"], ["pid"], ["exit_status"], rng.choice([["terminate"], ["kill"], ["send_signal", 10]]),
                           ["poll"]]
         out.append(sc)
+    # numbers that are no signal must be refused by the kernel as they are -- not reach the child as another signal
+    for j, sig in enumerate([256, 265, 271, -241, 65536 + 9, 2 ** 31 - 1, -(2 ** 31)]):
+        out.append({"id": "h-badsig%d" % j, "exit": {"k": "exited", "v": 3, "at": None},
+                    "ops": [["poll"], ["send_signal", sig], ["poll"], ["send_signal", sig], ["kill"], ["wait"]], "drop": True})
     # job control: a stopped child is alive -- no status may be reported for it
     for j, ops in enumerate([
         [["send_signal", 19], ["poll"], ["pid"], ["wait_timeout", 5 * MS], ["send_signal", 18], ["poll"], ["kill"], ["wait"]],
@@ -149,6 +153,13 @@ def fam_drop(seed, n):
     rng = random.Random(seed * 24593 + 17)
     out = []
     i = 0
+    # the usual "took too long: kill it, forget it" pattern, with a child that needs a moment to die
+    for pre in ([["kill"]], [["wait_timeout", 2 * MS], ["kill"]], [["terminate"]], [["kill"], ["poll"]], [["kill"], ["wait"]],
+                [["send_signal", 9]], [["kill"], ["exit_status"], ["pid"]]):
+        for lat in (0, 3 * MS):
+            out.append({"id": "dk%d" % i, "exit": {"k": "exited", "v": 1, "at": None}, "ops": list(pre), "drop": True,
+                        "kill_latency": lat})
+            i += 1
     for det in ("cfg", "call", None):
         for at in (None, 0, 5 * MS):
             for pre in ([], [["poll"]], [["delay", 10 * MS], ["poll"]], [["wait_timeout", 2 * MS]], [["terminate"]]):
